@@ -125,32 +125,26 @@ def mk_case(rng, op, m, n, tier, allshifts_max):
 
 def generate(rng, tier):
     ops = ['pixel', 'jitter', 'smear']
-    if tier == 'quick':
-        budget = 40000
-        shapes = [s for s in SHAPES_ALL if cost(*s) <= budget]
-        ncase = 150
-        allshifts = 12
-    else:
-        budget = 500000
-        shapes = [s for s in SHAPES_ALL if cost(*s) <= budget]
-        ncase = 1500
-        allshifts = 25
     out = []
-    # every shape within the budget once per blur (thorough), then random
-    if tier != 'quick':
-        for (m, n) in SHAPES_ALL:
+    if tier == 'quick':
+        shapes = [s for s in SHAPES_ALL if cost(*s) <= 20000]
+        ncase, allshifts = 150, 12
+        fixed = [(2, 2), (2, 3), (3, 2), (2, 12), (12, 2), (3, 5), (5, 3), (4, 6), (6, 4), (3, 12), (12, 4), (7, 7), (8, 8), (5, 10)]
+        for (m, n) in fixed:
             for op in ops:
-                if cost(m, n) <= 4 * budget:
-                    out.append(mk_case(rng, op, m, n, tier, allshifts))
+                out.append(mk_case(rng, op, m, n, tier, allshifts))
+        out.append(mk_case(rng, 'jitter', 12, 12, tier, allshifts))
     else:
-        for (m, n) in [(2, 2), (2, 3), (3, 2), (2, 12), (12, 2), (3, 5), (5, 3), (4, 6), (6, 4), (12, 12), (7, 7), (1, 1)]:
-            if m < 2:
-                continue
+        shapes = [s for s in SHAPES_ALL if cost(*s) <= 60000]
+        ncase, allshifts = 900, 25
+        # every shape 2..12 x 2..12 once per blur
+        for (m, n) in SHAPES_ALL:
             for op in ops:
                 out.append(mk_case(rng, op, m, n, tier, allshifts))
     while len(out) < ncase:
         m, n = rng.choice(shapes)
         out.append(mk_case(rng, rng.choice(ops), m, n, tier, allshifts))
+    rng.shuffle(out)         # spread the expensive shapes over the model shards
     for c in out:
         yield c
 
@@ -260,7 +254,12 @@ def model_renorm(absd, img):
     """second model stage: out * sum(img) / sum(out) on the rationals"""
     if not _BIN:
         _BIN.append(C.build_model(MODEL))
-    res = C.run_model(_BIN[0], [[4] + enc_qarr(absd) + enc_qarr(img)], shards=1)[0]
+    import subprocess
+    inp = ' '.join(str(int(x)) for x in [4] + enc_qarr(absd) + enc_qarr(img)) + '\n'
+    pr = subprocess.run([_BIN[0]], input=inp, stdout=subprocess.PIPE, stderr=subprocess.PIPE, text=True, timeout=600)
+    if pr.returncode != 0:
+        raise RuntimeError('model binary failed in the renormalisation stage: ' + pr.stderr[-300:])
+    res = [int(t, 2) for t in pr.stdout.split()]
     rd = C.Reader(res, 1)
     if rd.z() != 0:
         raise ValueError('renorm stage rejected its input')
@@ -272,12 +271,13 @@ def decode(c, ints):
     L = lcm(m, n)
     if len(ints) != 3 + 4 * L * m * n:
         raise ValueError('model returned a poisoned value (an argument was missing from the oracle table)')
-    rd = C.Reader(ints, L)
-    st = rd.z()
-    if st != 0:
-        return {'err': C.ERRNAMES.get(rd.z(), '?')}
-    a = rd.arr()
-    pre = np.array([[C.kval(v, L) for v in row] for row in a], dtype=complex)
+    if ints[0] != 0:
+        return {'err': C.ERRNAMES.get(ints[1], '?')}
+    # group-ring elements -> complex numbers: sum_k c_k exp(-2 pi i k / L)
+    nums, dens = ints[3::2], ints[4::2]
+    num = np.array([a / b for a, b in zip(nums, dens)], dtype=float).reshape(m, n, L, 2)
+    w = np.exp(-2j * np.pi * np.arange(L) / L)
+    pre = (num[..., 0] + 1j * num[..., 1]) @ w
     absd = np.abs(pre)                      # np.abs: applied here, between the two model stages
     if c['op'] == 'pixel':
         return {'out': absd.tolist()}
